@@ -4,6 +4,7 @@ package main
 
 import (
 	"fmt"
+	"os"
 	"go/types"
 	"strings"
 
@@ -291,6 +292,13 @@ func init() {
 		}
 		return in.crcLog[k].res, ctlNext
 	})
+	regAPI("vEnvInt", func(in *Interp, th *Thread, fr *Frame, args []Value, call ssa.Instruction) (Value, ctl) {
+		v := int64(in.intArg(th, args[1]))
+		if s := os.Getenv(strArg(args[0])); s != "" {
+			fmt.Sscan(s, &v)
+		}
+		return in.st.Const(64, uint64(v)), ctlNext
+	})
 	regAPI("vYield", func(in *Interp, th *Thread, fr *Frame, args []Value, call ssa.Instruction) (Value, ctl) {
 		return nil, ctlNext
 	})
@@ -312,6 +320,28 @@ func init() {
 // doAssert checks c under the path condition.
 func (in *Interp) doAssert(th *Thread, fr *Frame, c *Term, label string) {
 	h := in.harness
+	if in.confirmModel != nil {
+		// symbolic replay of a recorded path: evaluate the assertion under the recorded model
+		if !c.IsConst() {
+			memo := map[int32]uint64{}
+			if evalTerm(c, in.confirmModel, memo) == 0 {
+				pcOK := true
+				for _, p := range in.pc {
+					if evalTerm(p, in.confirmModel, memo) == 0 {
+						pcOK = false
+					}
+				}
+				if pcOK {
+					in.failures = append(in.failures, &Failure{Kind: "assert", Label: label, Site: in.callerSite(fr), Class: in.failClass})
+				}
+			}
+			in.pc = append(in.pc, c)
+		} else if c.k == 0 {
+			in.failures = append(in.failures, &Failure{Kind: "assert", Label: label, Site: in.callerSite(fr), Class: in.failClass})
+			in.fail("fail-stop", label)
+		}
+		return
+	}
 	if c.IsConst() {
 		if c.k != 0 {
 			if !in.inPrefix() {
@@ -353,4 +383,353 @@ func (in *Interp) callerSite(fr *Frame) string {
 		return ""
 	}
 	return fr.fn.Name()
+}
+
+// ---------- structural equality for round-trip checks ----------
+
+// deepEq builds a bool term for structural equality. weak=true accepts, at every leaf of b,
+// either equality with a or the zero value (fields a version does not carry come back zero).
+func (in *Interp) deepEq(th *Thread, a, b Value, weak bool, depth int) *Term {
+	st := in.st
+	if depth > 24 {
+		return st.tt
+	}
+	switch x := a.(type) {
+	case *Term:
+		y, ok := b.(*Term)
+		if !ok || x.w != y.w {
+			return st.ff
+		}
+		eq := st.Eq(x, y)
+		if weak {
+			return st.Or(eq, st.Eq(y, st.Const(y.w, 0)))
+		}
+		return eq
+	case Float:
+		y, ok := b.(Float)
+		return st.Bool(ok && (x.f == y.f || (weak && y.f == 0)))
+	case string, *SymStr, *LazyStr:
+		switch b.(type) {
+		case string, *SymStr, *LazyStr:
+		default:
+			return st.ff
+		}
+		if weak && in.strLen(b) == 0 {
+			return st.tt
+		}
+		return in.strEq(a, b)
+	case Pointer:
+		y, ok := b.(Pointer)
+		if !ok {
+			return st.ff
+		}
+		if x.c == nil || y.c == nil {
+			if x.c == nil && y.c == nil {
+				return st.tt
+			}
+			if weak {
+				return st.tt
+			}
+			return st.ff
+		}
+		if ptrEq(x, y) {
+			return st.tt
+		}
+		return in.deepEq(th, in.load(th, x), in.load(th, y), weak, depth+1)
+	case *Agg:
+		y, ok := b.(*Agg)
+		if !ok || len(x.v) != len(y.v) {
+			return st.ff
+		}
+		r := st.tt
+		for i := range x.v {
+			r = st.And(r, in.deepEq(th, x.v[i], y.v[i], weak, depth+1))
+			if r == st.ff {
+				return r
+			}
+		}
+		return r
+	case Slice:
+		y, ok := b.(Slice)
+		if !ok {
+			return st.ff
+		}
+		if weak && y.len == 0 {
+			return st.tt
+		}
+		if x.len != y.len {
+			return st.ff
+		}
+		r := st.tt
+		xe, ye := in.sliceElems(x), in.sliceElems(y)
+		for i := range xe {
+			r = st.And(r, in.deepEq(th, xe[i], ye[i], weak, depth+1))
+			if r == st.ff {
+				return r
+			}
+		}
+		return r
+	case *Map:
+		y, ok := b.(*Map)
+		if !ok {
+			return st.ff
+		}
+		xn, yn := 0, 0
+		if x != nil {
+			xn = x.n
+		}
+		if y != nil {
+			yn = y.n
+		}
+		if weak && yn == 0 {
+			return st.tt
+		}
+		if xn != yn {
+			return st.ff
+		}
+		r := st.tt
+		if x == nil {
+			return r
+		}
+		for i := range x.keys {
+			if !x.live[i] {
+				continue
+			}
+			any := st.ff
+			for j := range y.keys {
+				if !y.live[j] {
+					continue
+				}
+				any = st.Or(any, st.And(in.deepEq(th, x.keys[i], y.keys[j], false, depth+1), in.deepEq(th, x.vals[i], y.vals[j], weak, depth+1)))
+			}
+			r = st.And(r, any)
+		}
+		return r
+	case Iface:
+		y, ok := b.(Iface)
+		if !ok {
+			return st.ff
+		}
+		if x.t == nil || y.t == nil {
+			return st.Bool((x.t == nil && y.t == nil) || weak)
+		}
+		if !types.Identical(x.t, y.t) {
+			return st.ff
+		}
+		return in.deepEq(th, x.v, y.v, weak, depth+1)
+	case nil:
+		return st.Bool(b == nil)
+	}
+	// reference-like values (chan, func, map iter, opaque): identity
+	return st.Bool(a == b)
+}
+
+var eqDebug = os.Getenv("SYMGO_EQDEBUG") != ""
+
+// onWire reports whether any solver variable below v occurs in the encoded bytes.
+func (in *Interp) onWire(th *Thread, v Value, wire map[int32]bool, depth int) bool {
+	if depth > 24 {
+		return false
+	}
+	switch x := v.(type) {
+	case *Term:
+		if x.IsConst() {
+			return false
+		}
+		var vs []*Term
+		collectVars(x, map[int32]bool{}, &vs)
+		for _, t := range vs {
+			if wire[t.id] {
+				return true
+			}
+		}
+		return false
+	case *SymStr:
+		for _, b := range x.b {
+			if in.onWire(th, b, wire, depth+1) {
+				return true
+			}
+		}
+	case *LazyStr:
+		return in.onWire(th, in.force(x), wire, depth+1)
+	case Pointer:
+		if x.c != nil {
+			return in.onWire(th, in.load(th, x), wire, depth+1)
+		}
+	case *Agg:
+		for _, e := range x.v {
+			if in.onWire(th, e, wire, depth+1) {
+				return true
+			}
+		}
+	case Slice:
+		for _, e := range in.sliceElems(x) {
+			if in.onWire(th, e, wire, depth+1) {
+				return true
+			}
+		}
+	case *Map:
+		if x != nil {
+			for i := range x.keys {
+				if x.live[i] && (in.onWire(th, x.keys[i], wire, depth+1) || in.onWire(th, x.vals[i], wire, depth+1)) {
+					return true
+				}
+			}
+		}
+	case Iface:
+		if x.t != nil {
+			return in.onWire(th, x.v, wire, depth+1)
+		}
+	}
+	return false
+}
+
+// wireEq: every part of a whose variables reached the wire must come back equal in b.
+func (in *Interp) wireEq(th *Thread, t types.Type, a, b Value, wire map[int32]bool, depth int) *Term {
+	st := in.st
+	if depth > 24 || !in.onWire(th, a, wire, 0) {
+		return st.tt
+	}
+	switch x := a.(type) {
+	case *Term:
+		y, ok := b.(*Term)
+		if !ok || x.w != y.w {
+			return in.eqFF(1, a, b)
+		}
+		e := st.Eq(x, y)
+		if eqDebug && e != st.tt {
+			fmt.Printf("  wireEq leaf differs: %s  vs  %s\n", x, y)
+		}
+		return e
+	case string, *SymStr, *LazyStr:
+		switch b.(type) {
+		case string, *SymStr, *LazyStr:
+			e := in.strEq(a, b)
+			if eqDebug && e != st.tt {
+				fmt.Printf("  wireEq string differs: %s vs %s\n", showVal(a, 0), showVal(b, 0))
+			}
+			return e
+		}
+		return in.eqFF(2, a, b)
+	case Pointer:
+		y, ok := b.(Pointer)
+		if !ok || y.c == nil {
+			if eqDebug {
+				fmt.Printf("  wireEq pointer nil on decoded side for %s\n", showVal(in.load(th, x), 0))
+			}
+			return in.eqFF(3, a, b)
+		}
+		return in.wireEq(th, elemOf(t), in.load(th, x), in.load(th, y), wire, depth+1)
+	case *Agg:
+		y, ok := b.(*Agg)
+		if !ok || len(x.v) != len(y.v) {
+			return in.eqFF(4, a, b)
+		}
+		r := st.tt
+		for i := range x.v {
+			var ft types.Type
+			if t != nil {
+				switch u := t.Underlying().(type) {
+				case *types.Struct:
+					if wireSkipFields[u.Field(i).Name()] {
+						continue // encoder-side bookkeeping, not part of the value
+					}
+					ft = u.Field(i).Type()
+				case *types.Array:
+					ft = u.Elem()
+				}
+			}
+			r = st.And(r, in.wireEq(th, ft, x.v[i], y.v[i], wire, depth+1))
+		}
+		return r
+	case Slice:
+		y, ok := b.(Slice)
+		if !ok || x.len != y.len {
+			return in.eqFF(5, a, b)
+		}
+		r := st.tt
+		xe, ye := in.sliceElems(x), in.sliceElems(y)
+		for i := range xe {
+			r = st.And(r, in.wireEq(th, elemOf(t), xe[i], ye[i], wire, depth+1))
+		}
+		return r
+	case *Map:
+		y, ok := b.(*Map)
+		if !ok || y == nil || x.n != y.n {
+			return in.eqFF(6, a, b)
+		}
+		r := st.tt
+		for i := range x.keys {
+			if !x.live[i] {
+				continue
+			}
+			any := st.ff
+			for j := range y.keys {
+				if y.live[j] {
+					any = st.Or(any, st.And(in.deepEq(th, x.keys[i], y.keys[j], false, depth+1), in.wireEq(th, elemOf(t), x.vals[i], y.vals[j], wire, depth+1)))
+				}
+			}
+			r = st.And(r, any)
+		}
+		return r
+	case Iface:
+		y, ok := b.(Iface)
+		if !ok || y.t == nil {
+			return in.eqFF(7, a, b)
+		}
+		return in.wireEq(th, x.t, x.v, y.v, wire, depth+1)
+	}
+	return st.tt
+}
+
+// wireSkipFields are caches the encoders keep inside the values they encode.
+var wireSkipFields = map[string]bool{"compressedRecords": true, "recordsLen": true, "compressedSize": true}
+
+func elemOf(t types.Type) types.Type {
+	if t == nil {
+		return nil
+	}
+	switch u := t.Underlying().(type) {
+	case *types.Pointer:
+		return u.Elem()
+	case *types.Slice:
+		return u.Elem()
+	case *types.Array:
+		return u.Elem()
+	case *types.Map:
+		return u.Elem()
+	}
+	return nil
+}
+
+func (in *Interp) eqFF(site int, a, b Value) *Term {
+	if eqDebug {
+		fmt.Printf("  wireEq structural mismatch #%d: %s  vs  %s\n", site, showVal(a, 1), showVal(b, 1))
+	}
+	return in.st.ff
+}
+
+func init() {
+	regAPI("vWireEqual", func(in *Interp, th *Thread, fr *Frame, args []Value, call ssa.Instruction) (Value, ctl) {
+		wire := map[int32]bool{}
+		var vs []*Term
+		seen := map[int32]bool{}
+		for _, b := range in.sliceTerms(args[2].(Slice)) {
+			collectVars(b, seen, &vs)
+		}
+		for _, v := range vs {
+			wire[v.id] = true
+		}
+		return in.wireEq(th, args[0].(Iface).t, args[0].(Iface).v, args[1].(Iface).v, wire, 0), ctlNext
+	})
+	regAPI("vDeepEqual", func(in *Interp, th *Thread, fr *Frame, args []Value, call ssa.Instruction) (Value, ctl) {
+		return in.deepEq(th, args[0].(Iface).v, args[1].(Iface).v, false, 0), ctlNext
+	})
+	regAPI("vWeakEqual", func(in *Interp, th *Thread, fr *Frame, args []Value, call ssa.Instruction) (Value, ctl) {
+		return in.deepEq(th, args[0].(Iface).v, args[1].(Iface).v, true, 0), ctlNext
+	})
+	regAPI("vBytesEqual", func(in *Interp, th *Thread, fr *Frame, args []Value, call ssa.Instruction) (Value, ctl) {
+		a, b := in.sliceTerms(args[0].(Slice)), in.sliceTerms(args[1].(Slice))
+		return in.strEq(&SymStr{a}, &SymStr{b}), ctlNext
+	})
 }
